@@ -5,6 +5,8 @@ implementation by trace inclusion of the message logs recorded at both endpoints
 for every operation of random histories.  PROPERTY THEOREMS ONLY.
 -/
 import GoSandbox.Model.Rpc
+import GoSandbox.Model.Reaper
+import GoSandbox.Gen.C12
 namespace GoSandbox.Props.C10
 open GoSandbox.Model.Rpc
 
@@ -65,6 +67,131 @@ theorem C10_transport_loss_prompt :
     allOps.all (fun op => (reachable ⟨false, op⟩).all (fun s =>
       !(s.c == .dead && s.c2h.isEmpty) || (match s.h with | .returned _ | .idle => true | _ => !(steps ⟨false, op⟩ s).isEmpty))) = true := by
   decide +kernel
+
+/-! ### the hand-off between the command server and the reaper goroutine of the container init
+
+Every Execve that started a program goes through `c.waitPid <- pid`, a result on `c.waitPidResult`,
+`c.waitAll <- {}` and `<-c.waitAllDone` (Model/Reaper.lean).  That the call gets *its own* answer — the wait
+status of its own program, not "wait4: no child processes" because the clean-up of the previous run collected
+it — and that the next call is served at all rests on this hand-off being balanced. -/
+section Reaper
+open GoSandbox.Model.Reaper
+
+def real1 : GoSandbox.Model.Reaper.Cfg := ⟨.real, 1⟩
+def oneRunStates : List GoSandbox.Model.Reaper.St := reachableFrom real1 GoSandbox.Model.Reaper.init
+def oneRunTerminals : List GoSandbox.Model.Reaper.St := oneRunStates.filter (stuck real1)
+
+/-- **one started Execve, every interleaving** (program ends on its own or is killed at any moment, leaves any
+number of processes behind, alive or dead, which die whenever they like; the reaper is scheduled whenever it
+likes): the explored set is closed under the step relation (so it is all that can happen); every result the
+server takes is the wait status of its own program; neither hand-over ever finds the reaper busy
+(`c.waitPid <-` and `c.waitAll <-` are unbuffered); and every maximal run ends with the server back in
+`serve`, the reaper in its select, both buffered channels empty and no child of init left. -/
+theorem C10_reaper_one_run :
+    closed real1 oneRunStates = true ∧
+    oneRunStates.all (fun s => s.reported.all id) = true ∧
+    oneRunStates.all (fun s => match s.srv with
+      | .started | .gotResult _ => s.rp == .atSelect
+      | _ => true) = true ∧
+    (!oneRunTerminals.isEmpty && oneRunTerminals.all (fun s => quiet s && s.reported == [true] && s.runs == 1)) = true := by
+  refine ⟨?_, ?_, ?_, ?_⟩ <;> decide +kernel
+
+/-- forget the bookkeeping of earlier runs -/
+def fresh (s : GoSandbox.Model.Reaper.St) : GoSandbox.Model.Reaper.St := { s with runs := 0, reported := [] }
+
+/-- the states after `n` started Execves, each starting where the previous one ended -/
+inductive AfterRuns : Nat → GoSandbox.Model.Reaper.St → Prop
+  | zero : AfterRuns 0 GoSandbox.Model.Reaper.init
+  | succ {n : Nat} {s t : GoSandbox.Model.Reaper.St} : AfterRuns n s →
+      t ∈ (reachableFrom real1 (fresh s)).filter (stuck real1) → AfterRuns (n + 1) t
+
+theorem fresh_quiet (s : GoSandbox.Model.Reaper.St) (h : quiet s = true) : fresh s = GoSandbox.Model.Reaper.init := by
+  obtain ⟨srv, rp, resBuf, doneBuf, prog, living, zombies, runs, reported⟩ := s
+  simp only [quiet, Bool.and_eq_true, beq_iff_eq, Bool.not_eq_true'] at h
+  obtain ⟨⟨⟨⟨⟨⟨h1, h2⟩, h3⟩, h4⟩, h5⟩, h6⟩, h7⟩ := h
+  subst h1 h2 h3 h4 h5 h6 h7
+  rfl
+
+/-- **any number of Execves on one environment**: after every one of them the hand-off is balanced again —
+server in `serve`, reaper in its select, `waitPidResult` and `waitAllDone` empty, init without children — and
+the answer the call got was the wait status of its own program.  (So the next `c.waitPid <- pid` is taken at
+once, and no program is ever collected by the clean-up of the run before it.) -/
+theorem C10_reaper_balanced : ∀ (n : Nat) (s : GoSandbox.Model.Reaper.St), AfterRuns n s → quiet s = true ∧ s.reported.all id = true := by
+  intro n s h
+  induction h with
+  | zero => exact ⟨by decide, by decide⟩
+  | succ hprev ht ih =>
+    rw [fresh_quiet _ ih.1] at ht
+    have hall := C10_reaper_one_run.2.2.2
+    simp only [Bool.and_eq_true] at hall
+    have := List.all_eq_true.mp hall.2 _ ht
+    simp only [Bool.and_eq_true, beq_iff_eq] at this
+    exact ⟨this.1.1, by rw [this.1.2]; decide⟩
+
+/-- three Execves in a row explored as one system (a bounded cross-check of the composition used above) -/
+theorem C10_reaper_three_runs :
+    (let g : GoSandbox.Model.Reaper.Cfg := ⟨.real, 3⟩
+     let l := reachableFrom g GoSandbox.Model.Reaper.init
+     closed g l && l.all (fun s => s.reported.all id) && (l.filter (stuck g)).all (fun s => quiet s && s.runs == 3)) = true := by
+  decide +kernel
+
+/-- **why the final `<-c.waitAllDone` matters (1)**: a server that serves the next command without waiting
+for the end of the reaping can start the next program while `wait4(-1)` is still collecting: the program is
+collected there, `wait4(pid)` fails, and the call is answered "wait4: no child processes" (Runner Error)
+instead of its own status. -/
+theorem C10_reaper_nowait_witness :
+    (reachableFrom ⟨.noWaitDone, 2⟩ GoSandbox.Model.Reaper.init).any (fun s => s.reported.contains false) = true ∧
+    (reachableFrom ⟨.real, 2⟩ GoSandbox.Model.Reaper.init).any (fun s => s.reported.contains false) = false := by
+  constructor <;> decide +kernel
+
+/-- **why it matters (2)**: if only the kill branch returns without consuming the token, nothing shows after one
+killed run (the channel has room for one token) and nothing after two — the third Execve blocks for ever in
+`c.waitPid <- pid`, with the reaper blocked on the full `waitAllDone`: no answer, no reaction to a kill. -/
+theorem C10_reaper_killbranch_witness :
+    ((reachableFrom ⟨.killBranchReturnsEarly, 2⟩ GoSandbox.Model.Reaper.init).filter (stuck ⟨.killBranchReturnsEarly, 2⟩)).all (fun s => s.srv == .idle) = true ∧
+    ((reachableFrom ⟨.killBranchReturnsEarly, 3⟩ GoSandbox.Model.Reaper.init).filter (stuck ⟨.killBranchReturnsEarly, 3⟩)).any
+      (fun s => s.srv == .started && s.rp == .haveDone && s.doneBuf) = true := by
+  constructor <;> decide +kernel
+
+/-- the operations on the four hand-off channels, in the words of the extractor -/
+def handoffOps : List String :=
+  ["c.waitPid<-", "case <-c.recvCh", "case <-c.waitPidResult", "<-c.waitPidResult", "syscall.Kill(-1,syscall.SIGKILL)", "c.waitAll<-", "<-c.waitAllDone"]
+
+/-- **the server of the model is the server of the code** (regenerated from container_exec_linux.go on every
+run): the paths of `handleExecveStarted` that return success are exactly the kill branch and the result branch
+of the model — hand the pid over; on a kill command kill everything, take the result, request the reaping; on a
+result kill everything and request the reaping — and BOTH end with `<-c.waitAllDone`; every path that has started
+a program requests the reaping. -/
+theorem C10_gen_reaper_server :
+    ((Gen.C12.execStartedPaths.filter (fun p => p.head? == some "c.waitPid<-" && p.getLast? == some "return nil")).map
+        (fun p => p.filter handoffOps.contains)) =
+      [["c.waitPid<-", "case <-c.recvCh", "syscall.Kill(-1,syscall.SIGKILL)", "<-c.waitPidResult", "c.waitAll<-", "<-c.waitAllDone"],
+       ["c.waitPid<-", "case <-c.waitPidResult", "syscall.Kill(-1,syscall.SIGKILL)", "c.waitAll<-", "<-c.waitAllDone"]] ∧
+    (Gen.C12.execStartedPaths.filter (fun p => p.head? == some "c.waitPid<-")).all
+      (fun p => p.contains "c.waitAll<-" && (p.getLast? == some "return nil" || p.getLast? == some "return err")) = true := by
+  constructor <;> decide +kernel
+
+/-- **the reaper of the model is `waitLoop`** (regenerated from container_init_linux.go): one iteration either
+takes a pid, waits for exactly that pid and sends exactly one result, or takes a reaping request, loops on
+`wait4(-1)` and then sends exactly one token as its last action; the channels have the capacities the model
+gives them (`waitPid`, `waitAll` unbuffered; `waitPidResult`, `waitAllDone` one slot). -/
+theorem C10_gen_reaper_loop :
+    Gen.C12.reaperChanCaps = ["waitPid=0", "waitPidResult=1", "waitAll=0", "waitAllDone=1"] ∧
+    (!Gen.C12.waitLoopPaths.isEmpty && Gen.C12.waitLoopPaths.all (fun p =>
+      (p.head? == some "case <-c.waitPid" && (p.filter (· == "c.waitPidResult<-")).length == 1 && !p.contains "c.waitAllDone<-" &&
+         p.contains "syscall.Wait4(pid,&waitStatus,0,&rusage)" && !p.contains "syscall.Wait4(-1,nil,0,nil)") ||
+      (p.head? == some "case <-c.waitAll" && (p.filter (· == "c.waitAllDone<-")).length == 1 && p.getLast? == some "c.waitAllDone<-" &&
+         !p.contains "c.waitPidResult<-" && p.contains "syscall.Wait4(-1,nil,0,nil)"))) = true ∧
+    Gen.C12.waitLoopPaths.any (fun p => p.head? == some "case <-c.waitPid") = true ∧
+    Gen.C12.waitLoopPaths.any (fun p => p.head? == some "case <-c.waitAll") = true := by
+  refine ⟨?_, ?_, ?_, ?_⟩ <;> decide +kernel
+
+/-! non-vacuity -/
+example : oneRunStates.length = 44 := by decide +kernel
+example : AfterRuns 1 { reported := [true], runs := 1 } :=
+  AfterRuns.succ AfterRuns.zero (by decide +kernel)
+
+end Reaper
 
 /-! non-vacuity -/
 example : allOps.length = 22 := by decide
